@@ -71,7 +71,8 @@ RKEYS = ("a", "b", "c", "ab", "ba", "abc", "key", "kez", "aaaaaaaaaa", "aaaaaaaa
 def random_scalar(r, twins=False):
     c = r.random()
     if c < 0.30:
-        return r.choice((0, 1, 2, 3, 10, 11, 12, 100, -1))
+        # -1 / -2 and 0 / 2**61-1 collide under Python's hash(); numbers one character apart; a big integer
+        return r.choice((0, 1, 2, 3, 10, 11, 12, 100, -1, -2, -1, -2, 2 ** 61 - 1, -10))
     if c < 0.70:
         return r.choice(WORDS)
     if c < 0.78:
@@ -79,7 +80,7 @@ def random_scalar(r, twins=False):
     if c < 0.86:
         return r.choice((True, False)) if twins else r.choice((5, 6))
     if c < 0.93:
-        return r.choice((0.5, 1.5, 2.25, 1e3)) if not twins else r.choice((1.0, 0.0, 2.0, 0.5))
+        return r.choice((0.5, 1.5, 2.25, 1e3, -1.5)) if not twins else r.choice((1.0, 0.0, 2.0, 0.5, -1.0, -2.0))
     return r.choice(WORDS)
 
 
@@ -142,6 +143,9 @@ def mutate(doc, r, twins=False, depth=3):
             return float(doc) if c < 0.3 or doc not in (0, 1) else bool(doc)
         if float(doc).is_integer() and abs(doc) < 2 ** 31:
             return int(doc)
+    if isinstance(doc, int) and not isinstance(doc, bool) and c >= 0.5 and c < 0.8:
+        # a neighbouring number; -1 <-> -2 and 0 <-> 2**61-1 are the pairs whose Python hashes collide
+        return {-1: -2, -2: -1, 0: 2 ** 61 - 1, 2 ** 61 - 1: 0}.get(doc, doc + 1)
     if isinstance(doc, str) and c < 0.6:
         if doc and c < 0.2:
             i = r.randrange(len(doc))
@@ -432,6 +436,51 @@ def random_loaded_pair(r, opts):
         trees.append(ft.build_tree(path, build_options(opts)))
         os.unlink(path)
     return trees[0], trees[1]
+
+
+def random_mixedkeys_docs(r):
+    """Two mappings whose keys mix integers, floats and strings (YAML, pickles and Python objects allow that), including
+    look-alikes (1 / "1") and sets whose string order is cyclic (10 < "5" < 9 < 10)."""
+    pool = (1, "1", 10, "5", 9, "a", 2, "2", "10", 1.5, "1.5", "b", 0, "")
+    vals = r.choice(((1, 2, 3), ("v", "w", "x"), ("aaaaaaaa", "bbbbbbbb", "aaaaaaab", "zzzzzzzzzzzzzzzz"), ([1], [2], []), (1, "v", [1])))
+    def mk(m):
+        return {k: r.choice(vals) for k in r.sample(pool, m)}
+    a = mk(r.randint(1, 4))
+    c = r.random()
+    if c < 0.5:
+        b = dict(a)
+        for k in r.sample(pool, r.randint(1, 3)):
+            b[k] = r.choice(vals)
+        if r.random() < 0.5 and len(b) > 1:
+            del b[r.choice(list(b))]
+    else:
+        b = mk(r.randint(1, 4))
+    if r.random() < 0.35:
+        # a cyclic triple (x < y as numbers, str(y) < s < str(x) as text) on one side, part of it on the other:
+        # no order of the three keys is "sorted", so anything relying on sortedness shows
+        x, y, t3 = r.choice(((9, 10, "5"), (2, 10, "15"), (3, 20, "25"), (9, 100, "11")))
+        big = {x: r.choice(vals), y: r.choice(vals), t3: r.choice(vals)}
+        small = {k: r.choice(vals) for k in r.sample((x, y, t3), r.randint(1, 2))}
+        if r.random() < 0.5:
+            small.update({k: v for k, v in a.items() if k not in big and r.random() < 0.5})
+        a, b = (small, big) if r.random() < 0.6 else (big, small)
+    elif r.random() < 0.35:
+        # look-alike keys (1 and "1") in BOTH mappings, their values changed a little: which of the two is paired with
+        # which must not depend on the order they are written in
+        k = r.choice((1, 2, 10, 1.5))
+        sims = r.choice((("aaaaaaaa", "aaaaaaab", "bbbbbbbb", "bbbbbbbc"), ("v", "w", "x", "y"), ([1, 2], [1, 3], [4, 5], [4, 6])))
+        a = {k: sims[0], str(k): sims[2]}
+        b = {k: sims[1], str(k): sims[3]} if r.random() < 0.7 else {str(k): sims[3], k: sims[0]}
+        if r.random() < 0.4:
+            a["n"] = 1
+            b["n"] = 1
+    if r.random() < 0.5:
+        ks = list(b)
+        r.shuffle(ks)
+        b = {k: b[k] for k in ks}
+    if r.random() < 0.3:
+        a, b = [a, 1], [b, 1]
+    return a, b
 
 
 class _Point:
